@@ -9,6 +9,8 @@ faults (F5) and leftover train/eval mode (F6).
 import copy
 
 import torch
+
+from ..market import outside_price_domain
 from torch import nn
 
 from ..core import History, Inconclusive, Stats, Violation, bit_equal, thash
@@ -330,11 +332,15 @@ def _fit_op(world, program, op, h, d, p0, mspec, hspec, stats, hist, seq):
         with _grad_ctx(op.get("ambient")):
             history = h.fit(d, **kw)
     except Exception as e:
-        diverged = any(not bool(torch.isfinite(q).all()) for q in h.model.parameters() if not nn.parameter.is_lazy(q))
+        diverged = any(not bool(torch.isfinite(q).all()) or float(q.detach().abs().max()) > 1e4
+                       for q in h.model.parameters() if not nn.parameter.is_lazy(q) and q.numel())
+        if not diverged and outside_price_domain(world):
+            # a non-positive price from the Euler local-volatility scheme: log / Black-Scholes inputs and listed quotes are NaN
+            raise Inconclusive("market outside the price domain: %r" % (e,))
         if diverged:
             # plain SGD on a market quoted around 100 can blow the parameters up; a criterion then raises on the NaN P&L.
             # That is a diverged training run, not a protocol violation.
-            raise Inconclusive("training diverged (non-finite parameters): %r" % (e,))
+            raise Inconclusive("training diverged (non-finite or exploded parameters): %r" % (e,))
         raise Violation(ID, "op_raised", "fit:%s" % type(e).__name__, {
             "error": repr(e)[:400], "lazy": lazy, "inputs": hspec["inputs"], "hedge": op.get("hedge"), "op": op}, seq)
     finally:
